@@ -120,6 +120,10 @@ class A2:
             if slot in ("clone", "into_vec", "into_mut", "is_unique", "drop") and any(
                     isinstance(y, tuple) and y[0] == "field" and y[2] == "vtable" for y in walk(f)):
                 ev["slot:%s" % slot] += 1
+            elif isinstance(x, tuple) and x[0] == "param" and ("fn(" in b.locals[x[1]]["ty"].split("->")[0]) and 1 <= x[1] <= b.arg_count:
+                # a slot function handed over by the caller (`unsafe fn consume_with(self, f: unsafe fn(&AtomicPtr<()>, *const u8, usize) -> T)`):
+                # which slot it is is known where the helper is called
+                ev["slot:param%d" % x[1]] += 1
             elif slot == "drop":
                 ev["owner_drop"] += 1
             else:
@@ -307,6 +311,20 @@ class A2:
                                         c2["init:param%d" % a[1]] += n      # handed on from this function's own caller
                                     else:
                                         c2["init:?"] += n
+                                elif k.startswith("slot:param"):
+                                    i = int(k[len("slot:param"):]) - 1
+                                    a = args[i] if i < len(args) else None
+                                    name = None
+                                    for y in (walk(a) if isinstance(a, tuple) else ()):
+                                        if isinstance(y, tuple) and len(y) == 3 and y[0] == "field" and y[2] in ("clone", "into_vec", "into_mut", "is_unique", "drop") \
+                                                and any(isinstance(z, tuple) and len(z) == 3 and z[0] == "field" and z[2] == "vtable" for z in walk(y)):
+                                            name = y[2]
+                                    if name:
+                                        c2["slot:%s" % name] += n
+                                    elif isinstance(a, tuple) and a[0] == "param":
+                                        c2["slot:param%d" % a[1]] += n
+                                    else:
+                                        c2["indirect"] += n
                                 elif k == "hout":
                                     # the callee built a handle around *its* incoming pointer; for the caller this
                                     # moves the reference only if the argument was the caller's incoming pointer
@@ -401,6 +419,25 @@ def taken_variant(b, path, bi):
                     return "true" if v else "false"
                 return names.get(v)
     return None
+
+
+def param_slot_consuming(a2, b, pi):
+    from .inline import callers_of
+    sites = 0
+    for cb in callers_of(a2.facts, b.did):
+        eb = ExprBuilder(cb, a2.facts, inline=False)
+        for bi, t in cb.calls():
+            fn = callee(t)
+            r = (fn.get("res") or {}) if fn else {}
+            if r.get("did") != b.did or pi - 1 >= len(t["args"]):
+                continue
+            sites += 1
+            a = canon(eb.operand(t["args"][pi - 1], (bi, len(cb.blocks[bi]["stmts"]))))
+            names = [y[2] for y in walk(a) if isinstance(y, tuple) and len(y) == 3 and y[0] == "field" and y[2] in ("clone", "into_vec", "into_mut", "is_unique", "drop")
+                     and any(isinstance(z, tuple) and len(z) == 3 and z[0] == "field" and z[2] == "vtable" for z in walk(y))]
+            if len(names) != 1 or names[0] not in ("into_vec", "into_mut", "drop"):
+                return False
+    return sites > 0
 
 
 def vec_str(v):
@@ -553,6 +590,11 @@ def run(facts):
             key = "%s|%s" % (b.id, vec_str(v))
             probs = structural(v)
             slot_consume = get(v, "slot:into_vec") + get(v, "slot:into_mut") + get(v, "slot:drop")
+            for (k_, n_) in v:
+                if k_.startswith("slot:param") and n_:
+                    # the slot function is the caller's choice: it consumes the handle if every caller hands over a consuming slot of a vtable
+                    if param_slot_consuming(a2, b, int(k_[len("slot:param"):])):
+                        slot_consume += n_
             if dup:
                 paid = get(v, "inc") + sum(1 for i in inits(v) if i == "2")
                 if get(v, "dup") != paid:
